@@ -95,7 +95,7 @@ def validate(module, traces, constants, *, work, jobs=16, chunk=400, timeout=900
         with open(tf, "w") as f:
             json.dump(tlc_safe(part), f)
         tasks.append((i * size, len(part), (module, cfgp, tf, of, work, timeout, dfs)))
-    accepted, rejected, failed = [], {}, {}
+    accepted, rejected, failed, failed_pairs = [], {}, {}, {}
     states = trans = 0
     with cf.ThreadPoolExecutor(max_workers=jobs) as ex:
         futs = [(base, n, ex.submit(_one, a)) for base, n, a in tasks]
@@ -113,6 +113,7 @@ def validate(module, traces, constants, *, work, jobs=16, chunk=400, timeout=900
             for item in res["failed"]:
                 tid, clause = item[0], item[1]
                 detail = item[2] if len(item) > 2 else None
+                failed_pairs.setdefault(base + tid - 1, []).append((clause, detail))
                 lst = failed.setdefault(base + tid - 1, [])
                 if clause == "DriverFlags" and detail:
                     for d in detail:
@@ -120,7 +121,7 @@ def validate(module, traces, constants, *, work, jobs=16, chunk=400, timeout=900
                             lst.append(d)
                 elif clause != "DriverFlags" and clause not in lst:
                     lst.append(clause)
-    return {"accepted": accepted, "rejected": rejected, "failed": failed, "states": states, "transitions": trans}
+    return {"accepted": accepted, "rejected": rejected, "failed": failed, "failed_pairs": failed_pairs, "states": states, "transitions": trans}
 
 
 def two_stage(module, traces, strict_constants, *, work, **kw):
